@@ -333,7 +333,7 @@ def run_fuzz(pid, tier, seed):
     import subprocess
     import tempfile
     nproc = 2 if tier == 'quick' else 8
-    runs = int(os.environ.get('VERIF_FUZZ_RUNS', 20000 if tier == 'quick' else 400000))
+    runs = int(os.environ.get('VERIF_FUZZ_RUNS', 20000 if tier == 'quick' else 200000))
     base = '/dev/shm' if os.path.isdir('/dev/shm') else None
     work = tempfile.mkdtemp(prefix='vf-fuzz-%s-' % pid, dir=base)
     info = {'engine': 'atheris/libFuzzer', 'processes': nproc, 'runs_per_process': runs, 'available': True, 'failures': []}
